@@ -31,14 +31,36 @@ namespace Worker
 @[simp] theorem accept_updated (w : Worker) (u : Uuid) : (w.accept u).updated = w.updated := rfl
 @[simp] theorem accept_idleB (w : Worker) (u : Uuid) : (w.accept u).idleB = w.idleB := rfl
 
-@[simp] theorem startDone_starting (w : Worker) (u v : Uuid) (now : Nat) :
-    v ∈ (w.startDone u now).starting ↔ v ∈ w.starting ∧ v ≠ u := by simp [startDone]
-@[simp] theorem startDone_running (w : Worker) (u v : Uuid) (now : Nat) :
-    v ∈ (w.startDone u now).running ↔ v ∈ w.running ∨ v = u := by simp [startDone]
+theorem startDone_of_mem {w : Worker} {u : Uuid} (now : Nat) (h : u ∈ w.starting) :
+    w.startDone u now =
+      { w with updated := now, busy := now, starting := sRemove w.starting u, running := sInsert w.running u } := by
+  unfold startDone
+  rw [if_pos (by simpa using h)]
+
+theorem startDone_of_not_mem {w : Worker} {u : Uuid} (now : Nat) (h : u ∉ w.starting) :
+    w.startDone u now = w := by
+  unfold startDone
+  rw [if_neg (by simpa using h)]
+
+theorem startDone_starting (w : Worker) (u v : Uuid) (now : Nat) :
+    v ∈ (w.startDone u now).starting ↔ v ∈ w.starting ∧ v ≠ u := by
+  by_cases h : u ∈ w.starting
+  · rw [startDone_of_mem now h]; simp
+  · rw [startDone_of_not_mem now h]
+    exact ⟨fun hv => ⟨hv, fun e => h (e ▸ hv)⟩, fun hv => hv.1⟩
+theorem startDone_running (w : Worker) (u v : Uuid) (now : Nat) :
+    v ∈ (w.startDone u now).running ↔ v ∈ w.running ∨ (v = u ∧ u ∈ w.starting) := by
+  by_cases h : u ∈ w.starting
+  · rw [startDone_of_mem now h]; simp [h]
+  · rw [startDone_of_not_mem now h]; simp [h]
 @[simp] theorem startDone_state (w : Worker) (u : Uuid) (now : Nat) :
-    (w.startDone u now).state = w.state := rfl
-@[simp] theorem startDone_updated (w : Worker) (u : Uuid) (now : Nat) :
-    (w.startDone u now).updated = now := rfl
+    (w.startDone u now).state = w.state := by
+  unfold startDone; split <;> rfl
+theorem startDone_updated (w : Worker) (u : Uuid) (now : Nat) :
+    (w.startDone u now).updated = if u ∈ w.starting then now else w.updated := by
+  by_cases h : u ∈ w.starting
+  · rw [startDone_of_mem now h]; simp [h]
+  · rw [startDone_of_not_mem now h]; simp [h]
 
 @[simp] theorem shutdown_starting (w : Worker) (now : Nat) : (w.shutdown now).starting = w.starting := rfl
 @[simp] theorem shutdown_running (w : Worker) (now : Nat) : (w.shutdown now).running = w.running := rfl
